@@ -134,6 +134,12 @@ CONTRACTS = [shuffle]
 BOUNDED = {"module": "harness.c18"}
 
 MUTANTS = [
+    # (anchor-preserving variants: the mutated statement is not one a ghost anchor is attached to)
+    {"name": "peptide-length-one-too-long", "target": "mokapot.parsers.fasta._shuffle_proteins",
+     "find": "            pep_len = end - start\n", "replace": "            pep_len = end - start + 1\n"},
+    {"name": "window-starts-at-the-cleavage-site", "target": "mokapot.parsers.fasta._shuffle_proteins",
+     "find": "            end = sites[end_idx] - 1\n            pep_len = end - start\n",
+     "replace": "            end = sites[end_idx] - 1\n            start = start - 1\n            pep_len = end - start\n"},
     {"name": "last-residue-shuffled-too", "target": "mokapot.parsers.fasta._shuffle_proteins",
      "find": "            end = sites[end_idx] - 1", "replace": "            end = sites[end_idx]"},
     {"name": "first-residue-shuffled-too", "target": "mokapot.parsers.fasta._shuffle_proteins",
